@@ -338,7 +338,9 @@ def gen_dot(rng: random.Random, tier: str) -> dict:
     return {"names": names, "lhs": lhs, "extra": extra, "v": v, "w": w, "icpt": rng.random() < 0.7,
             "parser": rng.choice(["default", "default", "no_intercept"]),
             # the response may be used inside a Python call or expression (where its name has to be quoted)
-            "lhs_wrap": rng.choice([None, None, "I(`{n}`)", "{{`{n}` * 2}}", "abs(`{n}`)"])}
+            "lhs_wrap": rng.choice([None, None, "I(`{n}`)", "{{`{n}` * 2}}", "abs(`{n}`)"]),
+            # the caller's context may itself be a layered mapping that carries a layer called "data" (another materializer's context)
+            "ctx_kind": rng.choice([None, None, None, "named_data_layer", "other_materializer"])}
 
 
 def judge_dot(case) -> Outcome:
@@ -348,7 +350,7 @@ def judge_dot(case) -> Outcome:
     out = Outcome()
     names, lhs = case["names"], case["lhs"]
     nointercept = case.get("parser") == "no_intercept"
-    out.sig = (len(names), len(lhs), case["extra"].split("`")[0], names.index(lhs[0]), case["icpt"], "." in lhs[0], nointercept, case.get("lhs_wrap"))
+    out.sig = (len(names), len(lhs), case["extra"].split("`")[0], names.index(lhs[0]), case["icpt"], "." in lhs[0], nointercept, case.get("lhs_wrap"), case.get("ctx_kind"))
     rng = np.random.default_rng(len(names))
     df = pd.DataFrame({n: rng.normal(size=5) for n in names})
     head = ("" if case["icpt"] else "0 + ") if not nointercept else ("1 + " if case["icpt"] else "")
@@ -366,7 +368,16 @@ def judge_dot(case) -> Outcome:
                 form = Formula(f, _parser=DefaultFormulaParser(include_intercept=False), _context={"__formulaic_variables_available__": list(names)})
                 mm = form.get_model_matrix(df, context={})
             else:
-                mm = model_matrix(f, df, context={})
+                ctx = {}
+                if case.get("ctx_kind") == "named_data_layer":
+                    from formulaic.utils.layered_mapping import LayeredMapping
+
+                    ctx = LayeredMapping({"leak": np.arange(5.0), "zz9": np.ones(5)}, name="data")
+                elif case.get("ctx_kind") == "other_materializer":
+                    from formulaic.materializers import PandasMaterializer
+
+                    ctx = PandasMaterializer(pd.DataFrame({"leak": np.arange(5.0), "zz9": np.ones(5)}), context={"k9": 2.0}).layered_context
+                mm = model_matrix(f, df, context=ctx)
     except Exception as e:  # noqa: BLE001
         out.fail("c17.dot_raised", f"{f!r} on columns {names} (parser={case.get('parser')}): {type(e).__name__}: {str(e)[:150]}")
         return out
@@ -377,6 +388,8 @@ def judge_dot(case) -> Outcome:
     if ("Intercept" in colnames(mm.rhs)) != case["icpt"]:
         out.fail("c17.dot_intercept", f"{f!r}: intercept presence wrong")
     for n in first_order:
+        if n not in df.columns:  # (already reported as a wrong expansion)
+            continue
         if not np.allclose(dense(mm.rhs)[:, colnames(mm.rhs).index(n)], df[n].to_numpy()):
             out.fail("c17.dot_values", f"{f!r}: column {n!r} is not the data column")
     return out
